@@ -100,14 +100,18 @@ def extract(root, ndebug=True, jobs=16):
 
     with ThreadPoolExecutor(max_workers=jobs) as ex:
         res = dict(ex.map(one, units))
-    # keep the cache small: drop other keys
+    # keep the cache small: drop entries not used for an hour (never touch entries other runs may be using right now)
     try:
-        for d in os.listdir(CACHE):
-            if d != key and not d.startswith(key[:20]):
-                p = os.path.join(CACHE, d)
-                if os.path.isdir(p) and len(os.listdir(CACHE)) > 6:
-                    import shutil
-                    shutil.rmtree(p, ignore_errors=True)
+        import shutil
+        import time
+        now = time.time()
+        os.utime(cdir, None)
+        ents = [d for d in os.listdir(CACHE) if os.path.isdir(os.path.join(CACHE, d))]
+        if len(ents) > 40:
+            for d in ents:
+                pth = os.path.join(CACHE, d)
+                if d != key and now - os.path.getmtime(pth) > 3600:
+                    shutil.rmtree(pth, ignore_errors=True)
     except OSError:
         pass
     return res
